@@ -143,6 +143,31 @@ def run_case(inp):
                 if not np.allclose(p2, big.sum(axis=0), atol=1e-3 * (1 + np.abs(big).max())):
                     V("projection", f"simulate_2d differs from the z-projection of the 3-D simulation by "
                                     f"{np.abs(p2 - big.sum(axis=0)).max():.4g} ({nm} molecules)")
+        elif kind == "overwrite":
+            # a simulator that was already used: replacing a component (same name) must take effect
+            t1 = _smooth(inp["seed"], shape)
+            t2 = _smooth(inp["seed"] + 9, shape)
+            pos = r.uniform(8, min(N) - 8, size=(3, 3)) * scale
+            m1 = Molecules(pos, Rotation.random(3, random_state=inp["seed"]))
+            m2 = Molecules(pos[::-1].copy(), Rotation.random(3, random_state=inp["seed"] + 1))
+            sim = TomogramSimulator(order=order, scale=scale)
+            sim.add_molecules(m1, t1, name="a")
+            first = np.asarray(sim.simulate(N))
+            p_first = np.asarray(sim.simulate_2d(N[1:]))
+            sim.add_molecules(m2, t2, name="a", overwrite=True)
+            second = np.asarray(sim.simulate(N))
+            p_second = np.asarray(sim.simulate_2d(N[1:]))
+            fresh = TomogramSimulator(order=order, scale=scale).add_molecules(m2, t2, name="a")
+            want, p_want = np.asarray(fresh.simulate(N)), np.asarray(fresh.simulate_2d(N[1:]))
+            if not np.allclose(second, want, atol=1e-5):
+                V("history", f"after add_molecules(..., overwrite=True) on a used simulator, simulate() differs from a fresh "
+                             f"simulator by {np.abs(second - want).max():.4g}"
+                             + (" (it still equals the first simulation)" if np.allclose(second, first, atol=1e-5) else ""))
+            if not np.allclose(p_second, p_want, atol=1e-4 * (1 + np.abs(p_want).max())):
+                V("history", "after overwriting a component simulate_2d() differs from a fresh simulator")
+            again = np.asarray(sim.simulate(N))
+            if not np.allclose(again, second, atol=1e-6):
+                V("history", "two consecutive simulate() calls on the same simulator differ")
         elif kind == "order":
             t1 = _smooth(inp["seed"], shape)
             t2 = _smooth(inp["seed"] + 1, shape)
@@ -206,6 +231,9 @@ def oracle(rng, thorough, deep=False, hints=None):
         vol[it % 3] = int(rng.integers(2, 5))
         cases.append(dict(kind="exact", tshape=list(tshapes[it % len(tshapes)]), scale=float(rng.choice([1.0, 0.5])),
                           order=int(rng.choice([0, 1, 3])), volume=vol, nmol=[1, 2][it % 2], seed=int(rng.integers(0, 10 ** 6))))
+    for it in range(3 if big else 1):
+        cases.append(dict(kind="overwrite", tshape=[9, 10, 9], scale=float([1.0, 0.5][it % 2]), order=[1, 3, 0][it % 3],
+                          volume=[26, 24, 25], seed=int(rng.integers(0, 10 ** 6))))
     for it in range(6 if big else 2):
         cases.append(dict(kind="order", tshape=[9, 10, 11], scale=1.0, order=1, volume=[24, 24, 24], seed=int(rng.integers(0, 10 ** 6))))
     for it in range(10 if big else 4):
